@@ -20,6 +20,14 @@ Case kinds
            earlier must still read the same at the end
   ehist    the same for one MeanPhenotypicBreedingValue object: estimate, edit the SAME data-frame object in place,
            re-assign trait_cols / taxa_grp_col, estimate another table, overwrite a matrix returned earlier
+Round 4: `pheno` / `phist` carry `cfg_ops` = setter calls made after construction (nenv lowered / raised over a scalar, a
+constant or a non-constant replicate array, nrep and the variances re-assigned); a trial requested while an environment has
+no replicate count must be REFUSED (D60 repaired: the nenv setter makes the replicate array follow, phenotype() checks the
+configuration).  Every noisy frame is also read through the noise-structure oracle (`c14.spec_noise`): zero-variance
+components are absent per trait, positive-variance components give pairwise distinct effects (genuine generator).  `h2` cases
+run on a CONFIGURED protocol (non-zero var_env / var_rep, any layout, copy / hdf5 clones, the target set twice); `stat` cases
+add the replicate-pair statistic (Var of the difference of a taxon's two records = 2 var_err), cloned protocols and error
+variances that come from a heritability target; `meanbv` tables may be unbalanced (unequal records per environment).
 Options of the single-call kinds (`forms`): numpy scalar / narrow / unsigned / strided array arguments, copy / deepcopy /
 HDF5-restored protocol, miscout, rng=None, ploidy 1-4, custom column names, str / tuple / generator trait_cols, shuffled /
 string / filtered data-frame index, str / category label dtype, integer trait columns, phased genotype matrix as gtobj;
@@ -228,23 +236,44 @@ def _nrep_list(nenv, x):
     return list(x) if isinstance(x, list) else [int(x)] * nenv
 
 
-def _layout_asis(case):
-    """replicate counts per environment as the CODE uses them: the array stored at construction, zipped with
-    range(nenv) where nenv may have been re-assigned afterwards"""
-    base = _nrep_list(case["nenv"], case["nrep"])
-    after = case.get("nenv_after")
-    return base if after is None else base[:after]
+def _cfg_ops(case):
+    """setter calls made on the protocol after construction, in order ({"attr": nenv|nrep|var_env|var_rep|var_err, "value"});
+    `nenv_after` (older replay files) = one `nenv` assignment"""
+    ops = list(case.get("cfg_ops") or [])
+    if case.get("nenv_after") is not None:
+        ops = [{"attr": "nenv", "value": int(case["nenv_after"])}] + ops
+    return ops
 
 
-def _layout_spec(case):
-    """replicate counts per environment that the configuration asks for: `nenv_after` environments (when re-assigned);
-    a scalar `nrep` means that many replicates in EVERY environment"""
-    after = case.get("nenv_after")
-    if after is None:
-        return _nrep_list(case["nenv"], case["nrep"])
-    if isinstance(case["nrep"], list):
-        return list(case["nrep"])[:after]           # only generated for after <= nenv
-    return [int(case["nrep"])] * after
+def _cfg_state(case):
+    """(nenv, replicate array or None, {var_*: JSON form}) the configuration ASKS for after the constructor and the setter
+    calls.  A scalar `nrep` means that many replicates in EVERY environment, also in environments added later by an `nenv`
+    assignment (the stored form of a scalar is a constant array, so a constant array means the same); fewer environments
+    keep the counts of the first ones; more environments over a NON-constant array leave the new environments without a
+    count until `nrep` is assigned: the array is then None (undefined - phenotype() has to refuse, not to return a frame
+    for fewer environments than `nenv`)."""
+    nenv = int(case["nenv"])
+    arr = _nrep_list(nenv, case["nrep"])
+    var = {k: case.get(k) for k in ("var_env", "var_rep", "var_err")}
+    for op in _cfg_ops(case):
+        a, v = op["attr"], op["value"]
+        if a == "nenv":
+            n = int(v)
+            if n < len(arr):
+                arr = arr[:n]
+            elif len(arr) < n and len(set(arr)) == 1:
+                arr = [arr[0]] * n
+            nenv = n
+        elif a == "nrep":
+            arr = _nrep_list(nenv, v)
+        else:
+            var[a] = v
+    return nenv, (arr if len(arr) == nenv else None), var
+
+
+def _layout(case):
+    """replicate counts per environment the configuration asks for (None: undefined, see `_cfg_state`)"""
+    return _cfg_state(case)[1]
 
 
 def _cell(v):
@@ -350,29 +379,33 @@ class C14(Prop):
     PID = "C14"
     MODULE = "PybropsModel.Props.C14"
     N_QUICK = 400
-    N_THOROUGH = 4500
+    N_THOROUGH = 2000
     RULE = ("pheno: 1-7 taxa (sizes 9/10/11/100/101 for default names; 1025 taxa, 130/260 environments, 130 replicates, 4100 "
             "records in the corpus) x 1-5 markers x 1-3 traits (11 in the corpus), ploidy 1-5, additive or additive+dominance "
             "genomic model, 1-2 fixed effects, clones / partly inbred taxa / a trait without marker effects, common offsets "
             "25000 and 1e9 with effects of 0.5, effects of 1e-8, unsorted unique names incl. case / whitespace / unicode-"
             "normalisation twins and 'nan'/'NA'/'None' (10% with one repeated name) or no names, groups present/absent (negative "
-            "and large labels), 1-4 environments with scalar or per-environment (unequal) replicate counts, variances "
-            "None/scalar/per-trait array/zero, draws scripted (dyadic), genuine (recorded) or all-zero variance, 35 % through an "
+            "and large labels), 1-4 environments with scalar or per-environment (unequal) replicate counts, 22 % of the genuine-"
+            "generator cases with 1-3 setter calls after construction (nenv lowered / raised over scalar, constant and "
+            "non-constant replicate arrays - the last must be refused unless nrep is re-assigned), variances "
+            "None/scalar/per-trait array/zero/2^-30, draws scripted (dyadic), genuine (recorded) or all-zero variance, 35 % through an "
             "equivalent argument form (numpy scalars, int8/uint8/int32/uint64/strided arrays, float32/int variances) or a "
             "secondary route (copy, deepcopy, to_hdf5+from_hdf5, miscout, rng=None); h2: targets in (0,1] scalar or per trait "
             "incl. 1, 1-2^-30, 2^-27, populations of 2-130 taxa incl. 49/98/103/107, tiny / offset true values, traits with "
-            "var_A = 0; meanbv: hand-built tables with shuffled rows, unsorted labels, duplicate names inside one group, taxa "
+            "var_A = 0, half of them on a protocol configured with non-zero var_env / var_rep and any layout (clones, target set "
+            "twice); meanbv: hand-built tables (balanced or with unequal numbers of records per environment) with shuffled rows, unsorted labels, duplicate names inside one group, taxa "
             "absent from the table and from the genotype matrix, trait columns reordered, 25 % NaN cells, 25 % special "
             "magnitudes (25000+x, 1e9+-0.5, 1e-9, exact ties), a taxon with 49-300 records (1030 in the corpus), constant "
             "columns, partially grouped tables, 35 % other argument forms (str/tuple/generator trait_cols, custom column names, "
             "extra column, shuffled/string/offset index, str/category labels, integer columns, phased genotype matrix), "
             "estimated as is / rows permuted / genotype taxa permuted; thorough tier: exhaustive enumeration of all tables "
-            "of 1-4 records over 2 names x 2 groups against all genotype lists of 1-3 entries (27 200 cases); pipeline: real "
+            "of 1-4 records over 2 names x 2 groups against all genotype lists of 1-2 entries and three of 3 (10 880 cases); pipeline: real "
             "phenotype() or TruePhenotyping output, optionally row-permuted / sampled / filtered with the index kept, into "
             "real estimate(); phist / ehist: 3-12 step histories on ONE protocol / estimator object (setters, set_h2, in-place "
             "edits of founders / frames, model replacement, clones, overwritten outputs); stat: 2000-3000 records with a "
-            "genuine generator, equal or unequal replicate counts, per-trait variances incl. zeros, half of them configured "
-            "through the setters after construction.  Non-trivial = pheno with >= 2 taxa and >= 2 (env,rep) cells and names "
+            "genuine generator, equal or unequal replicate counts, per-trait variances incl. zeros, 40 % configured "
+            "through the setters after construction, 20 % through copy / deepcopy / HDF5, 20 % with the error variance set by a "
+            "heritability target; statistics: within-cell, replicate, environment and replicate-pair variances.  Non-trivial = pheno with >= 2 taxa and >= 2 (env,rep) cells and names "
             "not in sorted order; h2 with var_A > 0 and target < 1; meanbv with a taxon having >= 2 records and genotype order "
             "different from group-by order; histories with >= 2 judged steps")
     TRUSTED = [
@@ -388,12 +421,16 @@ class C14(Prop):
         "BreedingValueMatrix.from_numpy / unscale round trip (C15): outputs are read through unscale() with 1e-9 tolerance",
     ]
     ASSUMPTIONS = [
-        "taxon identity = taxon name: a name that occurs under two different group labels while taxa_grp_col is set is "
-        "outside the valid inputs (the code then returns the mean of the last group only; never generated)",
-        "configurations are built by the constructor and, in 12 % of the `real` pheno cases, `nenv` is re-assigned through "
-        "its public setter afterwards: fewer environments with any nrep (the zip truncates - valid), more environments with "
-        "a scalar nrep (every environment is owed that many replicates - finding D60); raising nenv over a non-constant "
-        "nrep array has no defined meaning and is not generated",
+        "taxon identity: a name that occurs under two different group labels while taxa_grp_col is set (8 % of the grouped "
+        "meanbv tables, all such tables of the exhaustive scope) is judged under EITHER reading - mean over all records of the "
+        "name, or over the records of the (name, group) pair of the genotype matrix entry; the unchanged code returns the mean "
+        "of the LAST group only (finding D61); without genotype matrix such tables are correspondence-only",
+        "configurations are built by the constructor and, in 22 % of the `real` pheno cases and in the histories, modified "
+        "through the public setters afterwards (nenv lowered / raised, nrep and the variances re-assigned, 1-3 calls): a "
+        "scalar (= constant) nrep means that many replicates in every environment, also in environments added later; fewer "
+        "environments keep the counts of the first ones; raising nenv over a non-constant nrep array leaves the new "
+        "environments without a count until nrep is assigned - a trial requested in that state has to be refused "
+        "(ValueError), never answered with fewer environments than nenv (D60, repaired)",
         "phenotype tables may hold NaN cells: the model follows pandas' skip-NaN group mean (`meanBVNan`); the Spec accepts "
         "skip-NaN mean or missing where only some records of a taxon lack the value (the property does not say)",
         "math.ceil(math.log10(n)) is the least k with n <= 10**k (exercised at n = 1, 9, 10, 11, 101)",
@@ -403,7 +440,7 @@ class C14(Prop):
         "heritability targets are passed as Python floats / float64 (a float32 target makes numpy evaluate (1-h2)/h2 in single "
         "precision - the caller's choice of precision, not generated)",
         "histories: every step is valid on its own (setters receive accepted values; after nenv is changed the replicate array "
-        "is re-assigned, except in the dedicated D60 histories); data frames / matrices returned earlier are only overwritten "
+        "is re-assigned or a trial in the undefined state is expected to be refused); data frames / matrices returned earlier are only overwritten "
         "through their own public interface (DataFrame.loc, matrix.mat[...]) and must not change otherwise",
     ]
 
@@ -433,11 +470,30 @@ class C14(Prop):
             {"kind": "pheno", "pop": {"geno": [[[1]], [[0]]], "taxa": ["solo"], "grp": None, "trait": ["t"],
                                       "beta": [[0]], "u": [[3]]},
              "nenv": 1, "nrep": 1, "var_env": None, "var_rep": None, "var_err": None, "mode": "zero", "seed": 1},
-            # D60: nenv raised through its setter after construction with a scalar nrep
+            # D60 (repaired; regression cases - they must PASS now): nenv raised through its setter after construction with
+            # a scalar nrep: every environment is owed that many replicates
             {"kind": "pheno", "pop": pop3, "nenv": 2, "nrep": 1, "nenv_after": 4, "var_env": 1, "var_rep": 1, "var_err": 1,
              "mode": "real", "seed": 7},
+            {"kind": "pheno", "pop": pop3, "nenv": 1, "nrep": 2, "cfg_ops": [{"attr": "nenv", "value": 3}],
+             "var_env": None, "var_rep": None, "var_err": None, "mode": "zero", "seed": 7},
             {"kind": "pheno", "pop": pop3, "nenv": 3, "nrep": [2, 1, 2], "nenv_after": 2, "var_env": 1, "var_rep": 1,
              "var_err": 1, "mode": "real", "seed": 8},
+            # ... over a constant array (indistinguishable from a broadcast scalar), down and up again, nrep re-assigned
+            {"kind": "pheno", "pop": pop3, "nenv": 2, "nrep": [3, 3], "cfg_ops": [{"attr": "nenv", "value": 3}],
+             "var_env": 1, "var_rep": [0, 1], "var_err": 1, "mode": "real", "seed": 9},
+            {"kind": "pheno", "pop": pop3, "nenv": 3, "nrep": 2,
+             "cfg_ops": [{"attr": "nenv", "value": 1}, {"attr": "var_rep", "value": [1, 4]}, {"attr": "nenv", "value": 4}],
+             "var_env": 1, "var_rep": 0, "var_err": 1, "mode": "real", "seed": 10},
+            {"kind": "pheno", "pop": pop3, "nenv": 2, "nrep": [2, 1],
+             "cfg_ops": [{"attr": "nenv", "value": 3}, {"attr": "nrep", "value": [1, 1, 2]}],
+             "var_env": 1, "var_rep": 1, "var_err": 1, "mode": "real", "seed": 11},
+            # ... over a NON-constant array without assigning nrep: the third environment has no replicate count; the
+            # repaired phenotype() refuses (the old code silently returned two environments)
+            {"kind": "pheno", "pop": pop3, "nenv": 2, "nrep": [2, 1], "cfg_ops": [{"attr": "nenv", "value": 3}],
+             "var_env": 1, "var_rep": 1, "var_err": 1, "mode": "real", "seed": 12},
+            {"kind": "pheno", "pop": pop3, "nenv": 3, "nrep": [2, 1, 2],
+             "cfg_ops": [{"attr": "nenv", "value": 2}, {"attr": "nenv", "value": 3}],
+             "var_env": 1, "var_rep": 1, "var_err": 1, "mode": "real", "seed": 13},
             {"kind": "h2", "pop": pop3, "which": "h2", "h2": "1/2"},
             {"kind": "h2", "pop": pop3, "which": "H2", "h2": [1, "1/4"]},
             {"kind": "h2", "pop": dict(pop3, u=[[1, 0], [3, 0], [-1, 0]]), "which": "h2", "h2": "3/4"},
@@ -453,6 +509,16 @@ class C14(Prop):
              "row_perm": [5, 3, 1, 0, 4, 2], "gt_perm": None},
             {"kind": "meanbv", "table": table, "taxa_col": "taxa", "grp_col": None, "trait_cols": ["y1"],
              "gt": None, "row_perm": [1, 0, 2, 5, 4, 3], "gt_perm": None},
+            # unbalanced trial: taxon b has two records in environment 1 and one in environment 2 (mean over records = 4,
+            # mean of environment means = 4.75)
+            {"kind": "meanbv", "table": dict(table, env=[1, 1, 1, 1, 2, 2], rep=[1, 1, 2, 1, 1, 1]), "taxa_col": "taxa",
+             "grp_col": "taxa_grp", "trait_cols": ["y1", "y2"], "gt": {"taxa": ["b", "a", "zz", "c"], "grp": None},
+             "row_perm": [2, 0, 5, 4, 3, 1], "gt_perm": [3, 1, 0, 2]},
+            # D61: the name b is used under the group labels 1 and 5 while taxa_grp_col is set: the join keeps the LAST group
+            # (mean of record 6 alone = 7) instead of the mean over b's records (4) or over those of the genotype matrix' group
+            {"kind": "meanbv", "table": dict(table, grp=[1, 2, 1, 3, 2, 5]), "taxa_col": "taxa", "grp_col": "taxa_grp",
+             "trait_cols": ["y1", "y2"], "gt": {"taxa": ["c", "zz", "a", "b"], "grp": [3, 8, 2, 1]},
+             "row_perm": [5, 3, 1, 0, 4, 2], "gt_perm": [2, 0, 3, 1]},
             # D18: population without groups, estimator told to group by the (all-missing) taxa_grp column
             {"kind": "meanbv", "table": dict(table, grp=None), "taxa_col": "taxa", "grp_col": "taxa_grp",
              "trait_cols": ["y1", "y2"], "gt": {"taxa": ["c", "zz", "a", "b"], "grp": None},
@@ -513,6 +579,14 @@ class C14(Prop):
              "mode": "zero", "seed": 3},
             {"kind": "pheno", "pop": dict(pop3, taxa=["d", "b", "d"]), "nenv": 41, "nrep": [34] * 40 + [7],
              "var_env": 1, "var_rep": [0, 1], "var_err": ["1/4", 0], "mode": "real", "seed": 4},
+            # a SCALAR replicate count past 127 (broadcast by the nrep setter), raised nenv afterwards
+            {"kind": "pheno", "pop": pop2, "nenv": 1, "nrep": 130, "cfg_ops": [{"attr": "nenv", "value": 2}],
+             "var_env": 0, "var_rep": 0, "var_err": 0, "mode": "zero", "seed": 3},
+            # heritability set on a configured protocol (non-zero environment / replicate variances in force)
+            {"kind": "h2", "pop": pop3, "which": "h2", "h2": "1/2",
+             "init": {"nenv": 2, "nrep": [2, 1], "var_env": 4, "var_rep": [1, 2], "var_err": 1}},
+            {"kind": "h2", "pop": pop3, "which": "H2", "h2": ["1/4", "3/4"], "twice": True,
+             "init": {"nenv": 1, "nrep": 2, "var_env": [100, 100], "var_rep": 9, "var_err": None, "via": "hdf5"}},
             # ---- magnitudes: common offset 1e9 / 25000 with effects of 0.5, effects of 1e-8
             {"kind": "pheno", "pop": pop_e9, "nenv": 1, "nrep": 1, "var_env": [1, 0], "var_rep": 1, "var_err": 1,
              "mode": "scripted", "script": script_e9},
@@ -642,7 +716,9 @@ class C14(Prop):
 
     def _variance(self, rng, t, allow_zero=True):
         r = rng.random()
-        vals = [0, 1, 2, Fraction(1, 2), Fraction(9, 4), 4] if allow_zero else [1, 2, Fraction(1, 2), Fraction(9, 4), 4]
+        # (2^-30 ~ 9.3e-10: a variance below numpy.isclose's absolute tolerance that is nevertheless not zero)
+        vals = [0, 1, 2, Fraction(1, 2), Fraction(9, 4), 4, Fraction(1, 2 ** 30)] if allow_zero else \
+            [1, 2, Fraction(1, 2), Fraction(9, 4), 4, Fraction(1, 2 ** 30)]
         if r < 0.15:
             return None
         if r < 0.50:
@@ -699,12 +775,8 @@ class C14(Prop):
         if mode == "real":
             case["seed"] = rng.randrange(2 ** 31)
             case["legacy_rng"] = rng.random() < 0.3
-            if rng.random() < 0.12 and not forms:        # `nenv` re-assigned through its setter after construction
-                if isinstance(nrep, list):
-                    if nenv > 1:
-                        case["nenv_after"] = rng.randint(1, nenv - 1)       # fewer environments: the zip truncates
-                else:
-                    case["nenv_after"] = rng.choice([max(1, nenv - 1), nenv + 1, nenv + 2])
+            if rng.random() < 0.22 and not forms:        # setters called after construction, before the trial
+                case["cfg_ops"] = self._gen_cfg_ops(rng, nenv, nrep, t)
             return case
         ve, vr, vx = (_var_vec(case[k], t) for k in ("var_env", "var_rep", "var_err"))
         den = 4 * (2 ** 27 if mag == "tiny" else 1)
@@ -716,6 +788,36 @@ class C14(Prop):
             script.append({"env": z(ve), "reps": [{"rep": z(vr), "err": [z(vx) for _ in range(n)]} for _ in range(k)]})
         case["script"] = script
         return case
+
+    def _gen_cfg_ops(self, rng, nenv, nrep, t, allow_undefined=True):
+        """1-3 setter calls on a constructed protocol: `nenv` lowered / raised (over a scalar, a constant array, a
+        non-constant array - then mostly followed by an `nrep` assignment, sometimes not: phenotype() must refuse), `nrep`
+        re-assigned, variances re-assigned"""
+        ops = []
+        cur, arr = nenv, _nrep_list(nenv, nrep)
+        for _ in range(rng.choice([1, 1, 2, 3])):
+            r = rng.random()
+            if r < 0.55:
+                new = rng.choice([x for x in (1, 2, 3, 4, 5) if x != cur])
+                ops.append({"attr": "nenv", "value": new})
+                const = len(set(arr)) == 1
+                if new < len(arr):
+                    arr = arr[:new]
+                elif const:
+                    arr = [arr[0]] * new
+                elif not (allow_undefined and rng.random() < 0.3):
+                    arr = [rng.randint(1, 3) for _ in range(new)]
+                    ops.append({"attr": "nrep", "value": list(arr)})
+                cur = new
+                if len(arr) != cur:
+                    break                      # undefined layout: stop here, the trial must be refused
+            elif r < 0.75:
+                val = rng.choice([1, 2, 3]) if rng.random() < 0.5 else [rng.randint(1, 3) for _ in range(cur)]
+                arr = _nrep_list(cur, val)
+                ops.append({"attr": "nrep", "value": val})
+            else:
+                ops.append({"attr": rng.choice(["var_env", "var_rep", "var_err"]), "value": self._variance(rng, t)})
+        return ops
 
     H2_TARGETS = [1, Fraction(1, 2), Fraction(1, 4), Fraction(3, 4), Fraction(1, 8), Fraction(1, 1024),
                   Fraction(0.3), Fraction(0.9), Fraction(0.05), Fraction(0.999),
@@ -735,6 +837,18 @@ class C14(Prop):
         if rng.random() < 0.3:
             # (no float32 forms: numpy then evaluates (1 - h2)/h2 in float32, a precision the caller chose)
             case["h2_form"] = rng.choice(["np64", "int", "np64"])
+        if rng.random() < 0.5:
+            # the protocol is not a fresh default one: a trial layout and non-zero environment / replicate / error variances
+            # are in force when the heritability is set (the target concerns genetic over genetic-plus-ERROR variance:
+            # var_env and var_rep neither enter the error variance nor are they touched)
+            nenv = rng.choice([1, 2, 3])
+            case["init"] = {"nenv": nenv, "nrep": rng.choice([1, 2]) if rng.random() < 0.5 else [rng.randint(1, 3) for _ in range(nenv)],
+                            "var_env": self._variance(rng, t, allow_zero=False), "var_rep": self._variance(rng, t, allow_zero=False),
+                            "var_err": self._variance(rng, t)}
+            if rng.random() < 0.3:
+                case["init"]["via"] = rng.choice(["copy", "deepcopy", "hdf5"])
+            if rng.random() < 0.3:
+                case["twice"] = True          # set the same target twice in a row (the second call starts from the first's result)
         return case
 
     def _gen_meanbv(self, rng):
@@ -762,13 +876,19 @@ class C14(Prop):
                 return Fraction(rng.randint(-40, 40))
             return Fraction(rng.randint(-40, 40), rng.choice([1, 2, 4]))
         taxa, grp, env, rep, vals = [], [], [], [], []
+        # one record per environment, or an UNBALANCED trial: unequal numbers of records per environment (the mean over a
+        # taxon's records is then not the mean of its environment means)
+        balanced = rng.random() < 0.5
         for nm in table_names:
             cnt = rng.choice([49, 98, 103, 107, 128, 130, 257, 300]) if nm == big else rng.choice([1, 1, 2, 3, 5])
+            seen = {}
             for k in range(cnt):
+                e = k + 1 if balanced else rng.choice([1, 1, 1, 2, 3])
+                seen[e] = seen.get(e, 0) + 1
                 taxa.append(nm)
                 grp.append(gmap[nm])
-                env.append(k + 1)
-                rep.append(1)
+                env.append(e)
+                rep.append(seen[e])
                 vals.append([canon.enc(val()) for _ in range(ncol)])
         if ncol >= 2 and rng.random() < 0.1:       # a constant trait column next to varying ones
             j = rng.randrange(ncol)
@@ -815,6 +935,25 @@ class C14(Prop):
         else:
             case["gt"] = None
             case["gt_perm"] = None
+        if use_grp and case["gt"] is not None and not has_nan and table["grp"] is not None and None not in table["grp"] \
+                and rng.random() < 0.08:
+            # ONE NAME UNDER TWO GROUP LABELS (finding D61): some records of a taxon carry another group label
+            cnt = {}
+            for nm in taxa:
+                cnt[nm] = cnt.get(nm, 0) + 1
+            multi = [nm for nm in table_names if cnt[nm] >= 2]
+            if multi:
+                nm = rng.choice(multi)
+                idx = [i for i, x in enumerate(taxa) if x == nm]
+                other = rng.choice([g for g in (1, 2, 3, 4, -2, 70000) if g != gmap[nm]])
+                for i in rng.sample(idx, rng.randint(1, len(idx) - 1)):
+                    table["grp"][i] = other
+                if nm not in case["gt"]["taxa"]:
+                    case["gt"]["taxa"].append(nm)
+                    if case["gt"]["grp"] is not None:
+                        case["gt"]["grp"].append(rng.choice([gmap[nm], other, 9]))
+                    case["gt_perm"] = list(range(len(case["gt"]["taxa"])))
+                    rng.shuffle(case["gt_perm"])
         perm = list(range(len(taxa)))
         rng.shuffle(perm)
         case["row_perm"] = perm
@@ -900,13 +1039,22 @@ class C14(Prop):
                     pop[key] = pop[key][:2]
         case = {"kind": "stat", "pop": pop, "nenv": nenv, "nrep": nrep,
                 "var_env": v(), "var_rep": v(), "var_err": v(), "seed": rng.randrange(2 ** 31)}
-        if rng.random() < 0.5:
+        r2 = rng.random()
+        if r2 < 0.4:
             # the protocol is constructed with OTHER variances (and a smaller trial) and brought to the requested
             # configuration through its setters, in a random order, before the trial is run
             case["init"] = {"var_env": v(), "var_rep": v(), "var_err": v(), "nenv": 2, "nrep": 1}
             order = ["var_env", "var_rep", "var_err", "layout"]
             rng.shuffle(order)
             case["post"] = order
+        elif r2 < 0.6:
+            # a secondary route to the same protocol (copy / deepcopy / HDF5 round trip)
+            case["forms"] = {"via": rng.choice(["copy", "deepcopy", "hdf5"])}
+        elif r2 < 0.8 and any(any(Fraction(x) != 0 for x in row) for row in pop["u"]):
+            # the error variance comes from a heritability target: the realised error variance must then be
+            # (1 - h2)/h2 * var_A of the phenotyped population, i.e. genetic/(genetic + realised error) variance = target
+            case["h2"] = canon.enc(rng.choice([Fraction(1, 2), Fraction(1, 4), Fraction(3, 4), Fraction(1, 8)]))
+            case["h2_which"] = rng.choice(["h2", "H2"])
         return case
 
     def _gen_reject(self, rng):
@@ -952,14 +1100,14 @@ class C14(Prop):
             case[k] = rng.choice([None, 0]) if zero_start else self._variance(rng, t)
         pgs = ["A", "B"] if "popB" in case else ["A"]
         if d60:
-            # the known finding, and nothing else, in these histories: nenv raised over a broadcast scalar nrep
+            # regression histories for the repaired D60: nenv raised over a broadcast scalar nrep, nothing else
             case["steps"] = ([{"op": "pheno", "pg": "A"}] if rng.random() < 0.5 else []) + \
                 [{"op": "set", "attr": "nenv", "value": nenv + rng.choice([1, 2])}, {"op": "pheno", "pg": rng.choice(pgs)}]
             return case
         forms = self._forms(rng, 0.2)
         if forms:
             case["forms"] = forms
-        st = {"nenv": nenv, "npheno": 0}
+        st = {"nenv": nenv, "npheno": 0, "arr": _nrep_list(nenv, nrep)}
         steps = []
 
         def pheno(pg=None):
@@ -985,11 +1133,27 @@ class C14(Prop):
             if attr == "nenv":
                 new = rng.choice([x for x in (1, 2, 3, 4) if x != st["nenv"]])
                 st["nenv"] = new
+                arr = st["arr"]
+                if new < len(arr):                      # fewer environments: the counts of the first ones are kept
+                    st["arr"] = arr[:new]
+                    if rng.random() < 0.6:
+                        return [{"op": "set", "attr": "nenv", "value": new}]
+                elif len(set(arr)) == 1 and rng.random() < 0.6:     # more environments over a constant array: re-broadcast
+                    st["arr"] = [arr[0]] * new
+                    return [{"op": "set", "attr": "nenv", "value": new}]
+                elif len(set(arr)) != 1 and rng.random() < 0.25:
+                    # more environments over a NON-constant array: no count for the new ones - a trial is refused until
+                    # `nrep` is assigned
+                    val = [rng.randint(1, 2) for _ in range(new)]
+                    st["arr"] = val
+                    return [{"op": "set", "attr": "nenv", "value": new}, {"op": "pheno", "pg": rng.choice(pgs)},
+                            {"op": "set", "attr": "nrep", "value": val}]
                 val = rng.choice([1, 2]) if rng.random() < 0.5 else [rng.randint(1, 2) for _ in range(new)]
-                # the replicate array has to follow (otherwise: the stale configuration of D60 / a clone is rejected)
+                st["arr"] = _nrep_list(new, val)
                 return [{"op": "set", "attr": "nenv", "value": new}, {"op": "set", "attr": "nrep", "value": val}]
             if attr == "nrep":
                 val = rng.choice([1, 2, 3]) if rng.random() < 0.5 else [rng.randint(1, 3) for _ in range(st["nenv"])]
+                st["arr"] = _nrep_list(st["nenv"], val)
                 return [{"op": "set", "attr": "nrep", "value": val}]
             return [{"op": "set", "attr": attr,
                      "value": rng.choice([None, 0]) if rng.random() < 0.4 else self._variance(rng, t)}]
@@ -1031,13 +1195,16 @@ class C14(Prop):
         return canon.enc(rng.choice(targets)) if rng.random() < 0.6 else [canon.enc(rng.choice(targets)) for _ in range(t)]
 
     def _gen_ehist(self, rng):
+        def unfit(c):
+            # (histories keep one group label per name: tables with a name under two labels - finding D61 - are single-call cases)
+            tb = c["table"]
+            return any(v is None for row in tb["vals"] for v in row) or len(tb["taxa"]) > 40 \
+                or (tb["grp"] is not None and None in tb["grp"]) or bool(self._split_names(tb, "taxa_grp"))
         base = self._gen_meanbv(rng)
-        while base["gt"] is None or any(v is None for row in base["table"]["vals"] for v in row) \
-                or len(base["table"]["taxa"]) > 40 or (base["table"]["grp"] is not None and None in base["table"]["grp"]):
+        while base["gt"] is None or unfit(base):
             base = self._gen_meanbv(rng)
         other = self._gen_meanbv(rng)
-        while any(v is None for row in other["table"]["vals"] for v in row) or len(other["table"]["taxa"]) > 40 \
-                or (other["table"]["grp"] is not None and None in other["table"]["grp"]):
+        while unfit(other):
             other = self._gen_meanbv(rng)
         t0 = base["table"]
         # the second table carries the columns of the first (so that one estimator configuration serves both) and shares
@@ -1127,14 +1294,17 @@ class C14(Prop):
     def exhaustive(self, tier):
         """thorough tier: EVERY phenotype table of 1-4 records over 2 names x 2 groups (record i carries the value 2**i, so a
         mean identifies the set of records it was taken over), estimated without and with the group column, against EVERY
-        genotype list of 1-3 entries over {a, b, c} (c never phenotyped) and against no genotype matrix: 27 200 cases.
-        With the group column, tables in which one name occurs under both groups are outside the valid inputs (taxon
-        identity = name); they are kept as correspondence-only cases (the model's last-group-wins join against the code)."""
+        genotype list of 1-2 entries over {a, b, c} (c never phenotyped), three lists of 3 entries and no genotype matrix: 10 880 cases.
+        With the group column, tables in which one name occurs under both groups are judged by `_spec_two_groups` when a
+        genotype matrix is supplied (finding D61: the join keeps the last group only) and kept as correspondence-only cases
+        without one (the aggregated frame then has one row per (name, group) pair)."""
         if tier != "thorough":
             return None
         import itertools
         keys = [(nm, g) for nm in ("a", "b") for g in (1, 2)]
-        gts = [list(x) for k in (1, 2, 3) for x in itertools.product("abc", repeat=k)] + [None]
+        # (row i of the result depends on gtTaxa[i] only - `meanBV_aligned` - so all lists of 1-2 entries plus a few of 3)
+        gts = [list(x) for k in (1, 2) for x in itertools.product("abc", repeat=k)] + \
+            [["c", "a", "b"], ["b", "b", "a"], ["a", "c", "c"]] + [None]
         out = []
         for nrec in (1, 2, 3, 4):
             for recs in itertools.product(keys, repeat=nrec):
@@ -1147,7 +1317,7 @@ class C14(Prop):
                              "gt": None if gt is None else {"taxa": gt, "grp": None},
                              "gt_perm": None if gt is None else list(range(1, len(gt))) + [0],
                              "row_perm": list(range(nrec))[::-1], "_exhaustive": True}
-                        if grp_col is not None and not functional:
+                        if grp_col is not None and not functional and gt is None:
                             c["corr_only"] = True
                         out.append(c)
         return out
@@ -1188,6 +1358,22 @@ class C14(Prop):
             pt.rng = rng_obj
         return pt
 
+    @staticmethod
+    def _apply_cfg_ops(pt, ops, t, vf=None):
+        for op in ops:
+            a, v = op["attr"], op["value"]
+            if a == "nenv":
+                pt.nenv = int(v)
+            elif a == "nrep":
+                pt.nrep = _nrep_arg(v)
+            else:
+                setattr(pt, a, _var(v, t, vf))
+
+    @staticmethod
+    def _refused_obs(pt, e):
+        return {"raised": canon.exc_tag(e), "nrep": [int(x) for x in pt.nrep], "nenv_attr": int(pt.nenv),
+                "var": {kk: canon.enc(getattr(pt, kk)) for kk in ("var_env", "var_rep", "var_err")}}
+
     def _trait_names(self, df):
         return [c for c in df.columns if c not in ("taxa", "taxa_grp", "env", "rep")]
 
@@ -1225,13 +1411,15 @@ class C14(Prop):
             else:
                 g = _Recording(case["seed"])
             pt = self._protocol(m, case, gm, g)
-            if case.get("nenv_after") is not None:
-                pt.nenv = int(case["nenv_after"])         # public setter, after construction
+            self._apply_cfg_ops(pt, _cfg_ops(case), self._t(case["pop"]))      # public setters, after construction
             args = (m["tp"].TruePhenotyping(gm), m["tbv"].TrueBreedingValue(gm))
             mo = bool((case.get("forms") or {}).get("miscout"))
             try:
                 obs, _ = self._observe_pheno(m, pg, gm, pt, g, *args, miscout=mo)
             except Exception as e:
+                if isinstance(e, ValueError) and _layout(case) is None:
+                    # a configuration without a replicate count for every environment is MEANT to be refused
+                    return self._refused_obs(pt, e)
                 if case["mode"] != "scripted":
                     raise
                 # the scripted stream assumes the call order of the model; a rewrite that draws in another order is a broken
@@ -1243,15 +1431,25 @@ class C14(Prop):
             return obs
         if k == "h2":
             pg, gm = _population(m, case["pop"])
-            pt = m["gep"].G_E_Phenotyping(gm, nenv=1, nrep=1, rng=numpy.random.default_rng(0))
-            arg = self._h2_arg(case["h2"], case.get("h2_form"))
-            if case["which"] == "h2":
-                va = gm.var_A(pg)
-                pt.set_h2(arg, pg)
+            init = case.get("init")
+            if init:
+                g0 = numpy.random.default_rng(0)
+                pt = self._protocol(m, dict(case, **init, forms={"via": init.get("via")}), gm, g0)
             else:
-                va = gm.var_G(pg)
-                pt.set_H2(arg, pg)
-            return {"varA": canon.enc(va), "varErr": canon.enc(pt.var_err), "gv": canon.enc(gm.gegv(pg).unscale())}
+                pt = m["gep"].G_E_Phenotyping(gm, nenv=1, nrep=1, rng=numpy.random.default_rng(0))
+            before = {kk: canon.enc(getattr(pt, kk)) for kk in ("var_env", "var_rep")}
+            lay0 = ([int(x) for x in pt.nrep], int(pt.nenv))
+            for _ in range(2 if case.get("twice") else 1):
+                arg = self._h2_arg(case["h2"], case.get("h2_form"))
+                if case["which"] == "h2":
+                    va = gm.var_A(pg)
+                    pt.set_h2(arg, pg)
+                else:
+                    va = gm.var_G(pg)
+                    pt.set_H2(arg, pg)
+            after = {kk: canon.enc(getattr(pt, kk)) for kk in ("var_env", "var_rep")}
+            return {"varA": canon.enc(va), "varErr": canon.enc(pt.var_err), "gv": canon.enc(gm.gegv(pg).unscale()),
+                    "others_untouched": before == after and lay0 == ([int(x) for x in pt.nrep], int(pt.nenv))}
         if k == "meanbv":
             return self._run_meanbv(m, case)
         if k == "pipeline":
@@ -1441,6 +1639,8 @@ class C14(Prop):
                     setattr(pt, what, _var(case[what], tt))
         else:
             pt = self._protocol(m, case, gm, g)
+        if case.get("h2") is not None:
+            (pt.set_h2 if case.get("h2_which", "h2") == "h2" else pt.set_H2)(float(Fraction(case["h2"])), pg)
         df = pt.phenotype(pg)
         gv = gm.gegv(pg).unscale()
         tcols = self._trait_names(df)
@@ -1460,7 +1660,8 @@ class C14(Prop):
         env = df["env"].to_numpy()
         rep = df["rep"].to_numpy()
         cells = {}
-        for k in range(len(names)):
+        order = sorted(range(len(names)), key=lambda k: pos[names[k]])      # within a cell: by taxon, whatever the row order
+        for k in order:
             cells.setdefault((int(env[k]), int(rep[k])), []).append(resid[k])
         cells_ok = sorted(cells) == [(e + 1, r + 1) for e, kk in enumerate(lay) for r in range(kk)] and \
             all(len(v) == n for v in cells.values())
@@ -1477,6 +1678,17 @@ class C14(Prop):
                 den += kk - 1
         rep_var = num / max(den, 1)
         em = numpy.array([numpy.mean([cm[(e + 1, r + 1)] for r in range(kk)], axis=0) for e, kk in enumerate(lay)])
+        # the errors of one taxon in two replicates of an environment are independent: the difference of its two records,
+        # centred within the environment, has variance 2 var_err (pooled over the environments with >= 2 replicates)
+        pd_num, pd_den = numpy.zeros(t), 0
+        if n >= 2:
+            for e, kk in enumerate(lay):
+                if kk >= 2:
+                    d = numpy.array(cells[(e + 1, 1)]) - numpy.array(cells[(e + 1, 2)])
+                    pd_num += (n - 1) * numpy.var(d, axis=0, ddof=1)
+                    pd_den += n - 1
+        res["pair_diff"] = (pd_num / max(pd_den, 1)).tolist()
+        res["pair_df"] = int(pd_den)
         # environments with the same replicate count k are identically distributed: per class -> var_env + (var_rep + var_err/n)/k
         env_var = {}
         for kk in sorted(set(lay)):
@@ -1526,10 +1738,8 @@ class C14(Prop):
         pt = self._protocol(m, case, gmobj[0], g)
         tp = m["tp"].TruePhenotyping(gmobj[0])
         tbv = m["tbv"].TrueBreedingValue(gmobj[0])
-        # the configuration as the harness tracks it: requested layout + as-is replicate array + variances
-        st = {"nenv": int(case["nenv"]), "arr": _nrep_list(case["nenv"], case["nrep"]),
-              "scalar": None if isinstance(case["nrep"], list) else int(case["nrep"]),
-              "var_env": case.get("var_env"), "var_rep": case.get("var_rep"), "var_err": case.get("var_err")}
+        # the configuration as the harness tracks it: the constructor arguments + every setter call made since
+        ops_so_far = []
         out_steps = []
         frames = []        # (data frame, snapshot of its rows, mutated?)
         vf = (case.get("forms") or {}).get("var")
@@ -1537,26 +1747,22 @@ class C14(Prop):
             op = s["op"]
             if op == "pheno":
                 pg = objs[s["pg"]]
-                obs, df = self._observe_pheno(m, pg, gmobj[cur], pt, g, tp, tbv, log_from=len(g.log))
                 pc = {"kind": "pheno", "pop": self._pseudo_pop(pops[s["pg"]], gms[cur]), "mode": "real",
-                      "nenv": len(st["arr"]), "nrep": st["scalar"] if st["scalar"] is not None else list(st["arr"]),
-                      "var_env": st["var_env"], "var_rep": st["var_rep"], "var_err": st["var_err"]}
-                if st["nenv"] != len(st["arr"]):
-                    pc["nenv_after"] = st["nenv"]
+                      "nenv": case["nenv"], "nrep": case["nrep"], "var_env": case.get("var_env"),
+                      "var_rep": case.get("var_rep"), "var_err": case.get("var_err"), "cfg_ops": list(ops_so_far)}
+                try:
+                    obs, df = self._observe_pheno(m, pg, gmobj[cur], pt, g, tp, tbv, log_from=len(g.log))
+                except ValueError as e:
+                    if _layout(pc) is not None:
+                        raise
+                    out_steps.append({"type": "pheno", "case": pc, "obs": self._refused_obs(pt, e)})
+                    continue
                 out_steps.append({"type": "pheno", "case": pc, "obs": obs})
                 frames.append([df, _frame_rows(df, self._trait_names(df)), False])
             elif op == "set":
                 attr, val = s["attr"], s["value"]
-                if attr == "nenv":
-                    pt.nenv = int(val)
-                    st["nenv"] = int(val)
-                elif attr == "nrep":
-                    pt.nrep = _nrep_arg(val)
-                    st["arr"] = _nrep_list(st["nenv"], val)
-                    st["scalar"] = None if isinstance(val, list) else int(val)
-                else:
-                    setattr(pt, attr, _var(val, t, vf))
-                    st[attr] = val
+                self._apply_cfg_ops(pt, [{"attr": attr, "value": val}], t, vf)
+                ops_so_far.append({"attr": attr, "value": val})
             elif op == "set_h2":
                 pg = objs[s["pg"]]
                 arg = self._h2_arg(s["h2"])
@@ -1573,7 +1779,8 @@ class C14(Prop):
                                   "obs": {"varA": canon.enc(va), "varErr": canon.enc(pt.var_err),
                                           "gv": canon.enc(gmobj[cur].gegv(pg).unscale())}})
                 h2 = [Fraction(x) for x in (s["h2"] if isinstance(s["h2"], list) else [s["h2"]] * t)]
-                st["var_err"] = [canon.enc((1 - h) / h * v) for h, v in zip(h2, _var_exact(pp, dom))]
+                ops_so_far.append({"attr": "var_err",
+                                   "value": [canon.enc((1 - h) / h * v) for h, v in zip(h2, _var_exact(pp, dom))]})
             elif op == "edit":
                 pg = objs[s["pg"]]
                 ps = pops[s["pg"]]
@@ -1604,9 +1811,6 @@ class C14(Prop):
                 pt = self._via(m, pt, s["how"], gmobj[cur], g)
                 if s["how"] == "deepcopy":
                     pt.gpmod = gmobj[cur]              # keep ONE model object per model (later `gpmod` steps toggle them)
-                # the stored replicate array survives a clone as an array
-                if st["scalar"] is not None and st["nenv"] == len(st["arr"]):
-                    pass
             elif op == "mutate_out":
                 fr = frames[s["which"]]
                 df = fr[0]
@@ -1704,35 +1908,50 @@ class C14(Prop):
                              "outRows": o["rows"]})
         return reqs
 
+    def _noise_request(self, case, obs, t):
+        nc = self._noise_cells(case, obs, t)
+        if nc is None:
+            return []
+        big = len(obs["rows"]) > self.NOISE_LEAN_MAX
+        return [dict(nc, op="c14.spec_noise", genuine=nc["genuine"] and not big)]
+
     def requests(self, case, obs):
         k = case["kind"]
         pop = case.get("pop")
         if k == "pheno":
             t = self._t(pop)
-            zero = all(all(v == 0 for v in _var_vec(case.get(kk), t)) for kk in ("var_env", "var_rep", "var_err"))
-            base = {"gv": obs["gv"], "taxa": pop["taxa"], "grp": pop["grp"], "trait": pop["trait"], "ntrait": t}
+            cvar = _cfg_state(case)[2]
+            zero = all(all(v == 0 for v in _var_vec(cvar[kk], t)) for kk in ("var_env", "var_rep", "var_err"))
+            base = {"gv": obs["gv"] if "gv" in obs else canon.enc(_gv_exact(pop)), "taxa": pop["taxa"], "grp": pop["grp"], "trait": pop["trait"], "ntrait": t}
+            ops = _cfg_ops(case)
+            cfg_req = {"op": "c14.config", "ntrait": t, "ntaxa": len(pop["geno"][0]), "nenv": case["nenv"], "nrep": case["nrep"],
+                       "var_env": case.get("var_env"), "var_rep": case.get("var_rep"), "var_err": case.get("var_err"),
+                       "ops": ops}
+            if "raised" in obs:            # the trial was refused: the model has to refuse the same configuration
+                return [{"op": "c14.phenotype", **base, "nenv": case["nenv"], "nrep": case["nrep"], "draws": [],
+                         "ops": [o for o in ops if o["attr"] in ("nenv", "nrep")]}, cfg_req]
+            lay = _layout(case)
             draws = obs["draws"]
             if case.get("rng_none"):       # package-level generator (not recorded); all variances are zero: zero draws
                 n = len(pop["geno"][0])
                 draws = []
-                for kk in _layout_asis(case):
+                for kk in (lay or []):
                     draws.append({"v": [0] * t})
                     for _ in range(kk):
                         draws += [{"v": [0] * t}, {"m": [[0] * t for _ in range(n)]}]
             return [
                 {"op": "c14.phenotype", **base, "nenv": case["nenv"], "nrep": case["nrep"], "draws": draws,
-                 "nenvAfter": case.get("nenv_after")},
+                 "ops": [o for o in ops if o["attr"] in ("nenv", "nrep")]},
+                # (an undefined layout for which a frame was returned all the same: judged against what `nenv` promises)
                 {"op": "c14.spec_pheno", "gv": obs["gv"], "taxa": pop["taxa"], "grp": pop["grp"],
-                 "nrep": _layout_spec(case), "zeroNoise": zero, "rows": obs["rows"]},
+                 "nrep": lay if lay is not None else [1] * _cfg_state(case)[0], "zeroNoise": zero, "rows": obs["rows"]},
                 {"op": "c14.truepheno", **base},
                 # TruePhenotyping = a noiseless trial with one environment and one replicate
                 {"op": "c14.spec_pheno", "gv": obs["gv"], "taxa": pop["taxa"], "grp": pop["grp"], "nrep": [1],
                  "zeroNoise": True, "rows": [dict(r, env=1, rep=1) for r in obs["true_rows"]]},
                 # the configuration object: stored attributes, layout, the generator calls phenotype() makes
-                {"op": "c14.config", "ntrait": t, "ntaxa": len(pop["geno"][0]), "nenv": case["nenv"], "nrep": case["nrep"],
-                 "var_env": case.get("var_env"), "var_rep": case.get("var_rep"), "var_err": case.get("var_err"),
-                 "ops": [] if case.get("nenv_after") is None else [{"attr": "nenv", "value": case["nenv_after"]}]},
-            ]
+                cfg_req,
+            ] + self._noise_request(case, obs, t)
         if k == "h2":
             t = self._t(pop)
             h2 = case["h2"] if isinstance(case["h2"], list) else [case["h2"]] * t
@@ -1800,8 +2019,11 @@ class C14(Prop):
         code hands to multivariate_normal: per environment one (t,) draw with cov diag(var_env); per replicate one (t,) draw
         with diag(var_rep) and one (n,t) draw with diag(var_err); all means zero"""
         ve, vr, vx = (_var_vec(case.get(kk), t) for kk in ("var_env", "var_rep", "var_err"))
+        if case.get("h2") is not None:
+            h = Fraction(case["h2"])
+            vx = [(1 - h) / h * v for v in _var_exact(case["pop"], case.get("h2_which", "h2") == "H2")]
         want = []
-        for k in _layout_asis(case):
+        for k in (_layout(case) or []):
             want.append((ve, None))
             for _ in range(k):
                 want.append((vr, None))
@@ -1884,8 +2106,92 @@ class C14(Prop):
                     "detail": f"reject[{case['what']}] implementation raised={obs.get('raised')} model rejects={want}"}
         raise ValueError(k)
 
+    NOISE_LEAN_MAX = 600      # records up to which the (quadratic) distinctness test is left to the Lean oracle
+
+    @staticmethod
+    def _noise_cells(case, obs, t):
+        """input of the noise-structure oracle (`Pheno.specNoise`, Model/PhenoSpec.lean): consequences of
+        `value = true value + environment effect + replicate effect + iid error` that do not depend on WHICH normal variates
+        were drawn.  A component whose variance is zero is absent (N(0, 0) is the point mass), so for trait j the residual
+        record - true value is constant over the taxa of a cell when var_err[j] = 0, over the cells of an environment when
+        var_rep[j] = 0 as well, and zero when var_env[j] = 0 as well (up to binary64 rounding of the sums); a component with
+        positive variance is a continuous variate, so with a GENUINE generator, almost surely, the residuals of all records are
+        pairwise distinct when var_err[j] > 0; otherwise the cell constants when var_rep[j] > 0; otherwise the environment
+        constants when var_env[j] > 0.
+        Returns None when the frame cannot be read that way (the label oracle failed / ambiguous labels), else the request
+        fields: tolerance, variances, `genuine`, and per trait the residual cells - every record against the true value of the
+        taxon it NAMES."""
+        if "rows" not in obs:
+            return None
+        cvar = _cfg_state(case)[2]
+        ve, vr, vx = (_var_vec(cvar[kk], t) for kk in ("var_env", "var_rep", "var_err"))
+        gv = canon.dec(obs["gv"])
+        n = len(gv)
+        rows = obs["rows"]
+        if n == 0 or len(rows) == 0 or len(rows) % n != 0 or any(len(r["vals"]) != t for r in rows):
+            return None
+        scale = _scale_of(obs["gv"], [r["vals"] for r in rows])
+        tol = Fraction(scale) / 10 ** 11 if scale else Fraction(0)
+        # (the distinctness tests need a genuine generator and values fine-grained enough for collisions to be impossible)
+        genuine = case.get("mode") == "real" and scale < 10 ** 6
+        # the taxon of a record: through its own name where the names are unique, else through its position within the
+        # block (when the labels follow the block order)
+        ptaxa = case["pop"].get("taxa")
+        names = [r["taxa"] for r in rows[:n]]
+        if ptaxa is not None and len(set(ptaxa)) == n and all(r["taxa"] in set(ptaxa) for r in rows):
+            pos = {str(nm): i for i, nm in enumerate(ptaxa)}
+            who = [pos[r["taxa"]] for r in rows]
+        elif (ptaxa is None or names == [str(x) for x in ptaxa]) and all(r["taxa"] == names[k % n] for k, r in enumerate(rows)):
+            who = [k % n for k in range(len(rows))]
+        else:
+            return None
+        cells = {}
+        for k, r in enumerate(rows):
+            cells.setdefault((r["env"], r["rep"]), []).append((who[k], [canon.dec(x) - gv[who[k]][j] for j, x in enumerate(r["vals"])]))
+        per_trait = []
+        for j in range(t):
+            per_trait.append([{"env": c[0], "rep": c[1], "res": [canon.enc(x[1][j]) for x in sorted(res, key=lambda z: z[0])]}
+                              for c, res in sorted(cells.items())])
+        return {"tol": canon.enc(tol), "var_env": [canon.enc(x) for x in ve], "var_rep": [canon.enc(x) for x in vr],
+                "var_err": [canon.enc(x) for x in vx], "genuine": bool(genuine), "cells": per_trait}
+
+    @classmethod
+    def _noise_distinct_big(cls, nc):
+        """the distinctness half of the oracle for frames too large for the quadratic Lean test (hash sets instead)"""
+        for j, cells in enumerate(nc["cells"]):
+            ve, vr, vx = (Fraction(nc[k][j]) for k in ("var_env", "var_rep", "var_err"))
+            if vx != 0:
+                vals = [x for c in cells for x in c["res"]]
+            elif vr != 0:
+                vals = [c["res"][0] for c in cells if c["res"]]
+            elif ve != 0:
+                seen = {}
+                for c in cells:
+                    if c["res"]:
+                        seen.setdefault(c["env"], c["res"][0])
+                vals = list(seen.values())
+            else:
+                continue
+            if len(set(vals)) != len(vals):
+                return False, f"trait {j}: a component with positive variance gives two equal effects"
+        return True, "distinct"
+
+    def _judge_refused(self, case, obs, ans):
+        """the trial was refused with a ValueError: right exactly when the configuration leaves an environment without a
+        replicate count (`_layout` undefined); the model has to refuse too and to hold the same stored attributes"""
+        mdl, cfg = ans
+        want = _layout(case) is None
+        corr = (mdl.get("rejected") == "phenotype") and mdl.get("nrep") == obs["nrep"] and mdl.get("nenv") == obs["nenv_attr"] \
+            and cfg.get("nrep") == obs["nrep"] and cfg.get("nenv") == obs["nenv_attr"]
+        return {"corr": corr, "spec": want, "nontrivial": True,
+                "detail": f"pheno refused: {obs['raised']}; stored nenv={obs['nenv_attr']} nrep={obs['nrep']}; "
+                          f"layout undefined={want}; model={mdl}"}
+
     def _judge_pheno(self, case, obs, ans):
-        mdl, sp, tmdl, tsp, cfg = ans
+        if "raised" in obs:
+            return self._judge_refused(case, obs, ans)
+        mdl, sp, tmdl, tsp, cfg = ans[:5]
+        noise = ans[5] if len(ans) > 5 else None
         pop = case["pop"]
         t = self._t(pop)
         n = len(pop["geno"][0])
@@ -1928,8 +2234,22 @@ class C14(Prop):
         # the Lean Spec compares the records with the true values AS REPORTED by the genomic model (exactly); that those are
         # the population's true genotypic values (exact closed form of the additive / dominance model on the CURRENT genotypes
         # and effects) is part of the same clause
-        spec = bool(sp["ok"]) and bool(tsp["ok"]) and tbv_ok and gv_ok
-        ncell = sum(_layout_asis(case))
+        if noise is None or not sp["ok"]:
+            ns_ok, ns_msg = True, "noise structure not judged"
+        else:
+            ns_ok, ns_msg = bool(noise["ok"]), noise["detail"]
+            if ns_ok and len(obs["rows"]) > self.NOISE_LEAN_MAX:
+                nc = self._noise_cells(case, obs, t)
+                if nc is not None and nc["genuine"]:
+                    ns_ok, m2 = self._noise_distinct_big(nc)
+                    ns_msg += "; " + m2
+        lay = _layout(case)
+        spec = bool(sp["ok"]) and bool(tsp["ok"]) and tbv_ok and gv_ok and ns_ok and lay is not None
+        if lay is None:
+            detail.append("phenotype() returned a frame although an environment has no replicate count "
+                          f"(nenv={obs.get('nenv_attr')}, nrep={obs['nrep']})")
+        detail.append(ns_msg)
+        ncell = sum(lay or [])
         nontriv = n >= 2 and ncell >= 2 and (pop["taxa"] is None or pop["taxa"] != sorted(pop["taxa"]))
         return {"corr": corr, "spec": spec, "nontrivial": nontriv,
                 "detail": f"pheno[{case['mode']}] spec: {sp['detail']}; true-pheno: {tsp['detail']}; {cov_msg}; "
@@ -1941,8 +2261,11 @@ class C14(Prop):
             canon.close_enc(mdl["varErr"], obs["varErr"], rel=1e-9, abs_=0)
         h2 = case["h2"] if isinstance(case["h2"], list) else [case["h2"]]
         nontriv = any(Fraction(v) > 0 for v in canon.dec(mdl["varA"])) and any(Fraction(h) < 1 for h in h2)
+        # (that set_h2 leaves the layout and the other variances alone is part of the model, not of the property)
+        corr = corr and obs.get("others_untouched", True)
         return {"corr": corr, "spec": bool(sp["ok"]), "nontrivial": nontriv,
-                "detail": f"{case['which']}: {sp['detail']} model={mdl} impl varA={obs['varA']} varErr={obs['varErr']}"}
+                "detail": f"{case['which']}: {sp['detail']} model={mdl} impl varA={obs['varA']} varErr={obs['varErr']} "
+                          f"layout_and_other_variances_untouched={obs.get('others_untouched', True)}"}
 
     def _judge_meanbv(self, case, obs, ans):
         mdl = ans[0]
@@ -1966,8 +2289,15 @@ class C14(Prop):
                 gtinv = gp["taxa"] == [base["taxa"][i] for i in perm] and _tight(
                     gp["rows"], [base["rows"][i] for i in perm], scale)
         spec = all(bool(s["ok"]) for s in specs) and inv and gtinv
-        if case.get("corr_only"):        # one name under two groups with the group column in use: outside the valid inputs
-            spec = True
+        split = self._split_names(case["table"], case["grp_col"])
+        extra = ""
+        if split and gt is not None and not case.get("corr_only"):
+            # one name under two group labels with the group column in use (finding D61): the Lean oracle reads "taxon" as
+            # "name"; here either notion of taxon identity is accepted
+            ok2, extra = self._spec_two_groups(case, obs)
+            spec = ok2 and inv and gtinv
+        elif split or case.get("corr_only"):
+            spec = True                  # (no genotype matrix / NaN cells: correspondence only)
         corr = corr and obs["input_untouched"]
         tab = case["table"]
         counts = {}
@@ -1977,7 +2307,67 @@ class C14(Prop):
         nontriv = max(counts.values()) >= 2 and (order_differs or gt is None and len(counts) >= 2)
         return {"corr": corr, "spec": spec, "nontrivial": nontriv,
                 "detail": "meanbv " + "; ".join(s["detail"] for s in specs) +
-                          f" row_perm_invariant={inv} gt_perm_aligned={gtinv} model={str(mdl)[:600]} impl={str(base)[:600]}"}
+                          f" row_perm_invariant={inv} gt_perm_aligned={gtinv} {extra} model={str(mdl)[:600]} impl={str(base)[:600]}"}
+
+    @staticmethod
+    def _split_names(table, grp_col):
+        """names that occur under two different (non-missing) group labels while the group column is in use"""
+        if grp_col is None or table.get("grp") is None:
+            return set()
+        seen = {}
+        for nm, g in zip(table["taxa"], table["grp"]):
+            if g is not None:
+                seen.setdefault(nm, set()).add(g)
+        return {nm for nm, gs in seen.items() if len(gs) > 1}
+
+    def _spec_two_groups(self, case, obs):
+        """Spec of the breeding-value clause for a table in which one name is used under two group labels (taxa_grp_col set,
+        genotype matrix supplied, no NaN cells).  "Each taxon's arithmetic mean over its records" is accepted under either
+        notion of taxon identity: the NAME (mean over all records of that name) or the (name, group) PAIR of the genotype
+        matrix entry (mean over the records of that name and group; missing if there is none).  Labels as always:
+        out.taxa / taxa_grp = those of the genotype matrix, out.trait = trait_cols."""
+        tab, tc, gt = case["table"], case["trait_cols"], case["gt"]
+        if any(v is None for row in tab["vals"] for v in row):
+            return True, "(two groups + NaN cells: not judged)"
+        cj = [tab["cols"].index(c) for c in tc]
+        scale = _scale_of(tab["vals"])
+        tol = Fraction(scale) / 10 ** 12
+
+        def mean(rows):
+            return [sum((Fraction(r[j]) for r in rows), Fraction(0)) / len(rows) for j in cj]
+
+        def row_ok(out_row, want):
+            if want is None:
+                return all(x is None for x in out_row)
+            return len(out_row) == len(want) and all(x is not None and abs(canon.dec(x) - w) <= tol for x, w in zip(out_row, want))
+        if (case.get("forms") or {}).get("gt_grouped"):
+            # the genotype matrix was grouped before it was supplied: its labels AS SUPPLIED are read off the object
+            outs = [(obs["base"], obs["gt_seen"]), (obs["rowperm"], obs["gt_seen"])]
+            if "gtperm" in obs:
+                outs.append((obs["gtperm"], obs["gt_seen_perm"]))
+        else:
+            outs = [(obs["base"], gt), (obs["rowperm"], gt)]
+            if "gtperm" in obs:
+                pm = case["gt_perm"]
+                outs.append((obs["gtperm"], {"taxa": [gt["taxa"][i] for i in pm],
+                                             "grp": None if gt.get("grp") is None else [gt["grp"][i] for i in pm]}))
+        for o, seen in outs:
+            tx, gg = seen["taxa"], seen.get("grp")
+            if o["taxa"] != tx or o["grp"] != gg or o["trait"] != tc or len(o["rows"]) != len(tx):
+                return False, "two groups: labels not those of the genotype matrix"
+            for i, nm in enumerate(tx):
+                mine = [v for t2, v in zip(tab["taxa"], tab["vals"]) if t2 == nm]
+                if not mine:
+                    accept = [None]
+                else:
+                    accept = [mean(mine)]
+                    if gg is not None:
+                        sub = [v for t2, g2, v in zip(tab["taxa"], tab["grp"], tab["vals"]) if t2 == nm and g2 == gg[i]]
+                        accept.append(mean(sub) if sub else None)
+                if not any(row_ok(o["rows"][i], w) for w in accept):
+                    return False, (f"two groups: row of {nm!r} is neither the mean over all its records nor over those of its "
+                                   f"genotype-matrix group: {o['rows'][i]}")
+        return True, "two groups: every row is the mean over the name's (or the (name, group) pair's) records"
 
     def _judge_stat(self, case, obs):
         if not obs.get("shape_ok") or not obs.get("cells_ok", True):
@@ -1987,6 +2377,9 @@ class C14(Prop):
         nenv = int(case["nenv"])
         lay = _nrep_list(nenv, case["nrep"])
         ve, vr, vx = ([float(x) for x in _var_vec(case.get(kk), t)] for kk in ("var_env", "var_rep", "var_err"))
+        if case.get("h2") is not None:      # error variance fixed by the heritability target (exact var_A / var_G)
+            h = Fraction(case["h2"])
+            vx = [float((1 - h) / h * v) for v in _var_exact(case["pop"], case.get("h2_which", "h2") == "H2")]
         ok = True
         msgs = []
         floor = 1e-18 * max(1.0, obs.get("gvmax", 1.0)) ** 2       # rounding of (record - true value) at variance 0
@@ -1996,6 +2389,8 @@ class C14(Prop):
             checks = [("err", obs["within"][j], vx[j], sum(lay) * (n - 1))]
             if obs["rep_df"] > 0:
                 checks.append(("rep", obs["rep_var"][j], cell, obs["rep_df"]))
+            if obs.get("pair_df", 0) > 0:
+                checks.append(("pair", obs["pair_diff"][j], 2 * vx[j], obs["pair_df"]))
             for kk, ev in sorted(obs["env_var"].items()):
                 checks.append((f"env|nrep={kk}", ev["est"][j], ve[j] + cell / int(kk), ev["df"]))
             for name, est, exp, df in checks:
@@ -2011,7 +2406,7 @@ class C14(Prop):
         pos = 0
         npheno = 0
         for i, st in enumerate(obs["steps"]):
-            k = 5 if st["type"] == "pheno" else 2
+            k = len(self.requests(st["case"], st["obs"]))
             v = self._judge(st["case"], st["obs"], answers[pos:pos + k])
             pos += k
             corr = corr and v["corr"]
@@ -2051,24 +2446,12 @@ class C14(Prop):
     # ================================================================================ findings / shrinking
     def signature(self, case, obs, verdict):
         sig = {"kind": case["kind"]}
-        if case["kind"] == "pheno" and case.get("nenv_after") is not None:
-            sig["site"] = "G_E_Phenotyping.nenv"
-            if case["nenv_after"] > case["nenv"] and not isinstance(case["nrep"], list):
-                sig["cond"] = "nenv_increased_after_construction"
-        if case["kind"] == "phist":
-            cur, scalar, alen = case["nenv"], not isinstance(case["nrep"], list), case["nenv"]
-            for st in case["steps"]:
-                if st["op"] == "set" and st["attr"] == "nenv":
-                    cur = st["value"]
-                elif st["op"] == "set" and st["attr"] == "nrep":
-                    scalar, alen = not isinstance(st["value"], list), cur
-                elif st["op"] == "pheno" and scalar and cur > alen:
-                    sig["site"] = "G_E_Phenotyping.nenv"
-                    sig["cond"] = "nenv_increased_after_construction"
         if case["kind"] == "meanbv":
             sig["site"] = SITE_EST
             if case.get("grp_col") is not None and case["table"].get("grp") is None:
                 sig["cond"] = "taxa_grp_col_all_missing"
+            elif case.get("gt") is not None and self._split_names(case["table"], case.get("grp_col")):
+                sig["cond"] = "name_under_two_groups"
         if case["kind"] == "pipeline":
             sig["site"] = SITE_EST
             if case.get("use_grp") and case["pop"].get("grp") is None:
@@ -2570,7 +2953,127 @@ class C14(Prop):
             ("r3_estimate_constant_trait_nan", lambda: patch(MBV, "estimate", est_constant_trait_nan)),
         ]
 
-        return round3 + [
+        # ------------------------------------------------------------------ round 4
+        nenv_prop = GEP.nenv
+
+        def nenv_prerepair(self, value):                       # D60 as it was: the replicate array does not follow
+            self._nenv = int(value)
+
+        def nenv_pads_with_ones(self, value):                  # a count is invented for environments that have none
+            old = getattr(self, "_nrep", None)
+            if old is not None and len(old) < value and not numpy.all(old == old[0]):
+                self._nrep = numpy.concatenate([old, numpy.ones(int(value) - len(old), dtype=old.dtype)])
+                self._nenv = value
+                return
+            nenv_prop.fset(self, value)
+
+        def h2_minus_env_rep(self, h2, pgmat, **kw):           # error variance = non-genetic variance - var_env - var_rep
+            self.var_err = numpy.maximum((1.0 - h2) / h2 * self.gpmod.var_A(pgmat) - self.var_env - self.var_rep, 0.0)
+
+        def pheno_replicates_are_copies(self, pgmat, miscout=None, **kw):   # all replicate blocks of an environment alias
+            df = ph0(self, pgmat, miscout, **kw)                             # one array: they end up identical
+            tc = list(df.columns[4:])
+            vals = df[tc].to_numpy().copy()
+            env, rep = df["env"].to_numpy(), df["rep"].to_numpy()
+            for e in numpy.unique(env):
+                last = rep[env == e].max()
+                src = vals[(env == e) & (rep == last)]
+                for r in numpy.unique(rep[env == e]):
+                    vals[(env == e) & (rep == r)] = src
+            df[tc] = vals
+            return df
+
+        def _pattern_rng(self, kind):
+            """generator wrapper: within an environment every replicate re-uses the FIRST replicate's draw of `kind`"""
+            plan = []
+            for k in self.nrep[:self.nenv]:
+                plan += ["env"] + ["rep", "err"] * int(k)
+
+            class Reuse:
+                def __init__(s, g):
+                    s.g, s.i, s.first = g, 0, None
+
+                def multivariate_normal(s, mean, cov, size=None, **k2):
+                    out = s.g.multivariate_normal(mean, cov, size, **k2)
+                    what = plan[s.i] if s.i < len(plan) else None
+                    s.i += 1
+                    if what == "env":
+                        s.first = None
+                    elif what == kind:
+                        if s.first is None:
+                            s.first = out
+                        else:
+                            return s.first.copy()
+                    return out
+            return Reuse(self._rng)
+
+        def pheno_rep_effect_once_per_env(self, pgmat, miscout=None, **kw):
+            real = self._rng
+            self._rng = _pattern_rng(self, "rep")
+            try:
+                return ph0(self, pgmat, miscout, **kw)
+            finally:
+                self._rng = real
+
+        def pheno_error_once_per_env(self, pgmat, miscout=None, **kw):
+            real = self._rng
+            self._rng = _pattern_rng(self, "err")
+            try:
+                return ph0(self, pgmat, miscout, **kw)
+            finally:
+                self._rng = real
+
+        def pheno_buffer_reused(self, pgmat, miscout=None, **kw):   # frames of successive calls share their value block
+            df = ph0(self, pgmat, miscout, **kw)
+            prev = self.__dict__.get("_mut_prev")
+            tc = list(df.columns[4:])
+            if prev is not None and prev.shape == df.shape and list(prev.columns) == list(df.columns):
+                prev.loc[:, tc] = df[tc].to_numpy()
+            self.__dict__["_mut_prev"] = df
+            return df
+
+        def est_traits_in_frame_order(self, ptobj, gtobj=None, miscout=None, **kw):   # values taken positionally
+            want = list(self._trait_cols)
+            frame_order = [c for c in ptobj.columns if c in want]
+            if len(frame_order) != len(want):
+                return est0(self, ptobj, gtobj, miscout, **kw)
+            self._trait_cols = frame_order
+            try:
+                out = est0(self, ptobj, gtobj, miscout, **kw)
+            finally:
+                self._trait_cols = want
+            out.trait = numpy.array(want, dtype=object)
+            return out
+
+        def truebv_genotypic(self, ptobj, gtobj, miscout=None, **kw):   # genotypic values reported as breeding values
+            return self.gpmod.gegv(gtobj)
+
+        def nrep_scalar_int8(self, value):                     # a scalar replicate count is broadcast into 8 bits
+            from numbers import Integral
+            if isinstance(value, Integral) and not isinstance(value, bool) and value > 0:
+                value = numpy.full(self.nenv, value, "int8").astype(int)
+            nrep_prop.fset(self, value)
+
+        def hdf5_var_rep_err_swapped(cls, filename, groupname=None, gpmod=None):
+            out = h5_0(cls, filename, groupname, gpmod)
+            out._var_rep, out._var_err = out._var_err, out._var_rep
+            return out
+
+        round4 = [
+            ("r4_nenv_setter_as_before_the_repair_of_D60", lambda: patch(GEP, "nenv", property(nenv_prop.fget, nenv_prerepair))),
+            ("r4_nenv_setter_invents_replicate_counts", lambda: patch(GEP, "nenv", property(nenv_prop.fget, nenv_pads_with_ones))),
+            ("r4_set_h2_subtracts_env_and_rep_variance", lambda: patch(GEP, "set_h2", h2_minus_env_rep)),
+            ("r4_phenotype_replicates_of_an_environment_are_copies", lambda: patch(GEP, "phenotype", pheno_replicates_are_copies)),
+            ("r4_phenotype_replicate_effect_once_per_environment", lambda: patch(GEP, "phenotype", pheno_rep_effect_once_per_env)),
+            ("r4_phenotype_error_once_per_environment", lambda: patch(GEP, "phenotype", pheno_error_once_per_env)),
+            ("r4_phenotype_value_block_shared_between_calls", lambda: patch(GEP, "phenotype", pheno_buffer_reused)),
+            ("r4_estimate_trait_values_in_frame_column_order", lambda: patch(MBV, "estimate", est_traits_in_frame_order)),
+            ("r4_true_breeding_value_reports_genotypic_values", lambda: patch(TBV, "estimate", truebv_genotypic)),
+            ("r4_nrep_scalar_broadcast_in_int8", lambda: patch(GEP, "nrep", property(nrep_prop.fget, nrep_scalar_int8))),
+            ("r4_from_hdf5_var_rep_and_var_err_swapped", lambda: patch(GEP, "from_hdf5", classmethod(hdf5_var_rep_err_swapped))),
+        ]
+
+        return round4 + round3 + [
             ("pheno_taxa_sorted_within_block", lambda: patch(GEP, "phenotype", taxa_sorted)),
             ("pheno_group_labels_rolled", lambda: patch(GEP, "phenotype", grp_rolled)),
             ("pheno_env_rep_swapped", lambda: patch(GEP, "phenotype", rep_major)),
